@@ -63,6 +63,9 @@ func New(kind string, timeoutMs int) (*Solver, error) {
 		cmd = exec.Command(kind, "-in", "-smt2", "-t:"+strconv.Itoa(timeoutMs))
 	case "cvc5":
 		cmd = exec.Command("cvc5", "--incremental", "--lang=smt2", "--produce-models", "--tlimit-per="+strconv.Itoa(timeoutMs))
+	case "cvc5-int":
+		// bit-vectors solved as integers (mod 2^k semantics kept): decides multiply/divide-by-constant kernels
+		cmd = exec.Command("cvc5", "--incremental", "--lang=smt2", "--produce-models", "--solve-bv-as-int=sum", "--tlimit-per="+strconv.Itoa(timeoutMs))
 	default:
 		return nil, fmt.Errorf("unknown solver %q", kind)
 	}
@@ -84,7 +87,7 @@ func New(kind string, timeoutMs int) (*Solver, error) {
 }
 
 func (s *Solver) prelude() {
-	if s.Kind == "cvc5" {
+	if strings.HasPrefix(s.Kind, "cvc5") {
 		s.Send("(set-logic QF_BV)\n")
 	} else {
 		s.Send("(set-option :produce-models true)\n")
@@ -313,7 +316,7 @@ func parseValues(txt string, res map[string]uint64) error {
 			return fmt.Errorf("get-value: missing ) near %v", toks[i:])
 		}
 		i++
-		res[sym] = v
+		res[strings.Trim(sym, "|")] = v
 	}
 	return nil
 }
